@@ -22,6 +22,7 @@ from .common import And, Case, Iff, Not, Or, all_exact, call, check_names, dims_
 
 LEVEL = "other"
 BATCH_REPLAY = True  # the cases build their own registries and never touch global unyt state
+CONFORM = {"quick": 300, "thorough": 1000}
 MANIFEST = dict(
     category="other",
     text=("Bounded symbolic execution of the real dispatch code (symx): every binary key of unyt's ufunc table in its call / out= / "
@@ -48,23 +49,35 @@ EXPLANATION = (
 )
 BOUNDS = {
     "quick": "18 commensurability-requiring binary keys of _ufunc_registry x forms {call, operator, out=quantity, out=ndarray, outer, at, "
-             "reduce(initial=), in-place} x 11 operand kinds on both sides (same unit, same dimension other unit, different dimension, "
-             "dimensionless, scaled-dimensionless (percent-like, any scale), bare scalar, bare array, python list, list of quantities "
-             "same/other/mixed) x shapes (),(2,) with broadcasting; 13 dimensions pairwise (169 ordered pairs, temperature with "
-             "symbolic offsets) per key in call and operator form; 11 unit-free binary keys (raise => operands intact only); 34 "
-             "array-function call shapes x operand kinds; __setitem__ (4 index forms), fill/put/searchsorted methods, to/in_units/"
-             "to_value/convert_to_units, Unit +/-",
-    "thorough": "as quick with shapes up to (2,2) and all broadcasting pairs, and every distinct dimension of the registry pairwise",
+             "reduce(initial=bare), in-place} x operand kinds {same unit, same dimension other unit, different dimension, dimensionless, "
+             "scaled-dimensionless (percent-like, ANY positive scale), bare scalar, bare array, python list, list of quantities "
+             "same/other/mixed} (left: the 5 quantity kinds + bare scalar + bare array; right: all 11) x shapes ((),()) in all forms, and for "
+             "add/subtract/less/equal/not_equal/maximum/remainder/hypot/divmod also ((2,),()) without outer/out=quantity and ((2,),(2,)) "
+             "in call and in-place form; every ordered pair of 12 dimensions (temperature also with symbolic "
+             "offsets) per key in call and operator form; 9 unit-free binary keys (raise => operands intact only); 31 array-function call "
+             "shapes (concatenate x2, stack, vstack, hstack, dstack, column_stack, block, append, where, choose, select x2, linspace, "
+             "geomspace, intersect1d, union1d, setdiff1d, isin, interp, searchsorted, clip x2, insert, place, put, putmask, put_along_axis, "
+             "fill_diagonal, copyto x2) x 6 kinds of first operand x 11 kinds of second; __setitem__ (5 index forms) and the "
+             "fill/put/searchsorted methods x 11 value kinds; to/in_units/to_value/convert_to_units with string and Unit targets and "
+             "Unit +,-,+=,-= over every ordered dimension pair",
+    "thorough": "as quick with all 11 kinds on both sides, every distinct dimension of the registry pairwise (51: 2601 ordered pairs), and "
+                "the shape pairs ((),(2,)) in all forms, ((2,2),(2,)) call/operator/in-place/out=, ((2,),(2,2)) call/operator, ((2,2),()) "
+                "call/in-place/at/reduce, ((2,2),(2,2)) call; for the comparison and min/max keys (whose NumPy loops branch per element "
+                "pair) the (2,2) shapes are run with quantity kinds on both sides only",
 }
-OUTSIDE = ("IEEE rounding/overflow/nan (A1: a division by zero inside NumPy's loop counts as 'returned'); integer/complex payloads and "
-           "the integer-only ufuncs (bitwise_*, shifts, ldexp); dask, pint/astropy inputs, masked arrays, user subclasses; extents > 2; "
-           "calls in which no argument is itself a unyt_array (np.add.reduce([a, b]) on a python list: NumPy strips the units before "
-           "unyt is entered). Interpretation: in ufuncs and in merging functions a bare number/sequence is a dimensionless operand "
-           "(that is what the property's zero exception presupposes); as the VALUE argument of an assignment-like call (__setitem__, "
-           "fill_diagonal, insert, place, put, putmask, put_along_axis, copyto, clip limits, searchsorted needle, select default) a "
-           "bare number/sequence has no dimension of its own and is read in the receiving array's unit (NumPy assignment semantics, "
-           "documented in _validate_units_consistency_v2) - only operands that carry units are compared there. The shape of the "
-           "==/!= constant answer is not checked here (C06/C16).")
+OUTSIDE = ("IEEE rounding/overflow/nan (A1): a path on which NumPy's loop divides by zero is dropped; integer/complex payloads and the "
+           "integer-only ufuncs (bitwise_*, shifts, ldexp); power/logaddexp/logaddexp2/logical_xor are classified (no demand) but not "
+           "run; dask, pint/astropy inputs, masked arrays, user subclasses; extents > 2; reduceat; calls in which no argument is itself a "
+           "unyt_array (np.add.reduce([a, b]) on a python list; np.append(x, [q1, q2]) ravels the list to bare numbers: NumPy strips "
+           "the units before unyt is entered); reduce(initial=<quantity>) (NumPy casts `initial` to the array's float dtype before unyt "
+           "runs, which an object payload cannot reproduce; the bare-number variant is checked); the built-in CGS<->MKS electromagnetic "
+           "unit pairs that .to() converts by design (C03). np.divmod/nextafter/copysign/heaviside have no object-dtype loop: the real "
+           "__array_ufunc__ is entered with a stand-in ufunc object (call, operator, out= forms only). Interpretation: in ufuncs and in "
+           "merging functions a bare number/sequence is a dimensionless operand (that is what the property's zero exception presupposes); "
+           "as the VALUE argument of an assignment-like call (__setitem__, fill_diagonal, insert, place, put, putmask, put_along_axis, "
+           "copyto, clip limits, searchsorted needle, select default) a bare number/sequence has no dimension of its own and is read in "
+           "the receiving array's unit (NumPy assignment semantics, documented in _validate_units_consistency_v2): only operands that "
+           "carry units are compared there. The shape of the ==/!= constant answer is not checked here (C06/C16).")
 
 NAMES = ["xa", "xb", "xc", "xp"]
 
@@ -85,6 +98,7 @@ FREE = {"multiply", "divide", "floor_divide", "power", "matmul", "vecdot", "loga
 FREE_NOT_RUN = {"power", "logaddexp", "logaddexp2", "logical_xor"}
 INTEGER_ONLY = {"ldexp", "bitwise_and", "bitwise_or", "bitwise_xor", "left_shift", "right_shift"}  # no float loop: outside (A1)
 FORKING = ORDERING | EQNE | {"maximum", "minimum", "fmax", "fmin"}  # NumPy's object loops branch on every element pair
+QUICK_SHAPED = {"add", "subtract", "less", "equal", "not_equal", "maximum", "remainder", "hypot", "divmod"}
 REDUCIBLE = {"add", "subtract", "maximum", "minimum", "fmax", "fmin", "hypot"}
 OPERATOR = {"add": operator.add, "subtract": operator.sub, "remainder": operator.mod, "divmod": divmod,
             "greater": operator.gt, "greater_equal": operator.ge, "less": operator.lt, "less_equal": operator.le,
@@ -104,7 +118,7 @@ LISTS = ["blist"] + QLIST_KINDS
 
 # labels of the obligations that fail on the unchanged tree (each is listed in known_findings.json); kept apart from the
 # obligation next to them that must hold even with the defect, so that nothing else is masked
-L_ZERO = "zero exemption granted to an operand that carries units"
+L_ZERO = "zero exemption granted to an all-zero list of quantities"
 L_EQD = "==/!= with a dimensionless operand is not answered by the constant"
 L_DIVMOD = "divmod returns for incommensurable operands"
 L_REDINIT = "reduce(initial=nonzero bare number) on a dimensional array returns"
@@ -352,11 +366,11 @@ def judge(ctx, W, tag, opname, res, ops, klass, known=None, outer=False, outs=()
             # known defect: == and != treat a dimensionless operand like the ordering comparisons do and compare the bare numbers
             known = L_EQD
             weak = Or(strict, raw_equality(val, ops[0], ops[1], opname == "not_equal", outer))
-        elif known is None and klass == "require" and any(not is_unyt(ctx, o.value) for o in ops):
-            # known defect: the zero exemption looks at isinstance(operand, unyt_array) only, so it is also granted to the
-            # all-zero operand that carries units (and to an all-zero list of quantities) when the other operand is not a unyt_array
+        elif known is None and klass == "require" and any(o.kind in QLIST_KINDS for o in ops):
+            # known defect: the zero exemption looks at isinstance(operand, unyt_array) only, so it is also granted to an
+            # all-zero python list of quantities, which carries units (the all-zero unyt_array case was repaired by 37ae695)
             known = L_ZERO
-            weak = Or(strict, *[o.all_zero() for o in ops])
+            weak = Or(strict, *[o.all_zero() for o in ops if not is_unyt(ctx, o.value)])
         if known is not None:
             if weak is not None:
                 ctx.require(f"{label} beyond the known defect", weak, **info)
@@ -511,7 +525,7 @@ def make_ufunc_case(name, k0, k1, s0, s1, d0, d1, forms=FORMS, group="uf"):
         W = World(ctx, d0, d1)
         run_forms(ctx, W, name, k0, k1, s0, s1, forms)
         W.flush()
-    return Case(f"C01/{group}/{name}/{k0}+{k1}/{shstr(s0)}_{shstr(s1)}", h, bounds="symbolic: elements, scales", budget_s=600,
+    return Case(f"C01/{group}/{name}/{k0}+{k1}/{shstr(s0)}_{shstr(s1)}", h, bounds="symbolic: elements, scales", budget_s=3000,
                 max_paths=6000, weight=(1 + len(s0) + len(s1)) * (3 if name in ORDERING | EQNE else 1))
 
 
@@ -549,13 +563,16 @@ def make_dims_case(name, cat, with_offsets):
         known = L_DIVMOD if name == "divmod" else None
         for a in left:
             for b in right:
+                if with_offsets and "temperature" not in (a.dim, b.dim):
+                    continue  # the offset variant differs from the linear one only where a temperature unit takes part
                 tag = f"{name}[{a.dim}|{b.dim}]"
                 judge(ctx, W, tag + ".call", name, xcall(uf, a.value, b.value), [a, b], "require", known)
                 if name in OPERATOR:
                     judge(ctx, W, tag + ".op", name, xcall(uf if sym_standin else OPERATOR[name], a.value, b.value), [a, b], "require", known)
         W.flush()
-    return Case(f"C01/dims/{name}/{'affineT' if with_offsets else 'linear'}", h, bounds=f"{len(cat)}x{len(cat)} ordered dimension pairs",
-                budget_s=900, max_paths=2000, weight=30, conform=False)
+    return Case(f"C01/dims/{name}/{'affineT' if with_offsets else 'linear'}", h,
+                bounds=f"{len(cat)}x{len(cat)} ordered dimension pairs" if not with_offsets else f"temperature (symbolic offsets) x {len(cat)} dimensions, both orders",
+                budget_s=3000, max_paths=2000, weight=30, conform=False)
 
 
 # ------------------------------------------------------------------------------------------------ array functions
@@ -598,7 +615,6 @@ AF = {
     # clipping: limits given as bare numbers are read in the array's unit
     "clip": ("assign", lambda np_, x0, x1: np_.clip(x0, x1, x1), [((2,), ()), ((2,), (2,))]),
     "clip_max": ("assign", lambda np_, x0, x1: np_.clip(x0, x0.min() if hasattr(x0, "units") else None, x1), [((2,), ())]),
-    "clip_min": ("assign", lambda np_, x0, x1: np_.clip(x0, x1, None), [((2,), ())]),
     "insert": ("assign", lambda np_, x0, x1: np_.insert(x0, 0, x1), [((2,), ()), ((2,), (2,))]),
 }
 # functions that write into their first argument (run on a copy)
@@ -645,7 +661,7 @@ def make_af_case(fname, k0, k1, shapes, dims):
         res = xcall(fn, np, tgt.value, b.value)
         judge(ctx, W, f"{fname}({k0},{k1})", fname, res, [tgt, b], klass, AF_KNOWN.get(fname))
         W.flush()
-    return Case(f"C01/af/{fname}/{k0}+{k1}/{shstr(s0)}_{shstr(s1)}", h, bounds="symbolic: elements, scales", budget_s=600, max_paths=6000,
+    return Case(f"C01/af/{fname}/{k0}+{k1}/{shstr(s0)}_{shstr(s1)}", h, bounds="symbolic: elements, scales", budget_s=3000, max_paths=6000,
                 weight=4, conform=fname != "geomspace")
 
 
@@ -699,7 +715,7 @@ def make_assign_case(group, form, k0, k1, table, dims):
                         And(sc >= 1 - 2e-9, sc <= 1 + 2e-9))
         judge(ctx, W, tag, group, res, [tgt, b], "assign", known)
         W.flush()
-    return Case(f"C01/{group}/{form}/{k0}+{k1}", h, bounds="symbolic: elements, scales", budget_s=600, max_paths=6000, weight=3)
+    return Case(f"C01/{group}/{form}/{k0}+{k1}", h, bounds="symbolic: elements, scales", budget_s=3000, max_paths=6000, weight=3)
 
 
 CONVERT = {
@@ -737,7 +753,7 @@ def make_convert_case(entry, cat, as_string):
                                 And(now[0] == facts[0], now[1] == facts[1], exact_eq(now[2], facts[2]), exact_eq(now[3], facts[3])))
         W.flush()
     return Case(f"C01/convert/{entry}/{'str' if as_string else 'unit'}", h, bounds=f"{len(cat)}x{len(cat)} ordered dimension pairs",
-                budget_s=900, max_paths=2000, weight=20, conform=False)
+                budget_s=3000, max_paths=2000, weight=20, conform=False)
 
 
 def make_unit_addsub_case(cat):
@@ -766,7 +782,7 @@ def make_unit_addsub_case(cat):
                     ctx.require(f"{tag}: units unchanged after raise",
                                 And(n0[0] == b0[0], n0[1] == b0[1], exact_eq(n0[2], b0[2]), exact_eq(n0[3], b0[3]),
                                     n1[0] == b1[0], n1[1] == b1[1], exact_eq(n1[2], b1[2]), exact_eq(n1[3], b1[3])), to_solver=True)
-    return Case("C01/unit/addsub", h, bounds=f"{len(cat)}x{len(cat)} ordered dimension pairs", budget_s=600, weight=10, conform=False)
+    return Case("C01/unit/addsub", h, bounds=f"{len(cat)}x{len(cat)} ordered dimension pairs", budget_s=3000, weight=10, conform=False)
 
 
 # ------------------------------------------------------------------------------------------------ case list
@@ -794,6 +810,9 @@ def dim_key(expr):
 
 
 def cases(tier, mods):
+    from symx import kernels
+    # the interp handler calls np.interp(...) (not ._implementation) on the stripped arrays: let the A8 kernel model answer it
+    kernels.FuncProxy.call_fallback = True
     check_names(mods, NAMES)
     cat, seen = [], set()
     for n, Dm in dims_catalogue(mods, tier):
@@ -808,7 +827,8 @@ def cases(tier, mods):
     names = binary_keys(mods)
     quick = tier == "quick"
     # shape pair -> forms run on it
-    plan = {((), ()): FORMS, ((2,), ()): FORMS, ((2,), (2,)): ["call", "iop"] if quick else FORMS}
+    plan = {((), ()): FORMS, ((2,), ()): ["call", "op", "out_b", "at", "reduce_initial", "iop"] if quick else FORMS,
+            ((2,), (2,)): ["call", "iop"] if quick else FORMS}
     if not quick:
         plan.update({((), (2,)): FORMS, ((2, 2), (2,)): ["call", "op", "iop", "out_q"], ((2,), (2, 2)): ["call", "op"],
                      ((2, 2), ()): ["call", "iop", "at", "reduce_initial"], ((2, 2), (2, 2)): ["call"]})
@@ -821,6 +841,8 @@ def cases(tier, mods):
                 for (s0, s1), forms in plan.items():
                     if not (_ok_shape(k0, s0) and _ok_shape(k1, s1)):
                         continue
+                    if quick and (s0, s1) != ((), ()) and name not in QUICK_SHAPED:
+                        continue  # quick tier: array shapes for one key of each family (the shape logic does not depend on the key)
                     if (s0, s1) == ((2,), ()) and (k0 in LISTS or k1 in LISTS):
                         continue  # a list has 2 elements whatever the nominal shape: covered by ((),()) and ((2,),(2,))
                     if (2, 2) in (s0, s1) and name in FORKING and not (k0 in QUANTITY_KINDS and k1 in QUANTITY_KINDS):
